@@ -66,7 +66,9 @@ Inductive jexpr :=
 | JENot (a : jexpr)                            (* !(a) *)
 | JECond (c a d : jexpr)                       (* ((c) ?a:d) *)
 | JEElvis (a c : jexpr)                        (* ((a) != null ? a : c) *)
-| JEEscapeHtml (a : jexpr).                    (* soy.$$escapeHtml(a) *)
+| JEEscapeHtml (a : jexpr)                     (* soy.$$escapeHtml(a) *)
+| JEIsFirst (ix : bstr)                        (* (ix == 0) *)
+| JEIsLast (ix lim : bstr).                    (* (ix == lim - 1) *)
 
 Definition jbin_sym (o : jbin) : bstr :=
   match o with
@@ -97,6 +99,8 @@ Fixpoint jprint (e : jexpr) : list chunk :=
   | JECond c a d => [CText t_op_open] ++ jprint c ++ [CText t_tern1] ++ jprint a ++ [CText t_colon] ++ jprint d ++ [CText t_rpar]
   | JEElvis a c => [CText t_op_open] ++ jprint a ++ [CText t_elvis1] ++ jprint a ++ [CText t_elvis2] ++ jprint c ++ [CText t_rpar]
   | JEEscapeHtml a => [CText (directive_js n_escapeHtml); CText t_lpar] ++ jprint a ++ [CText t_rpar]
+  | JEIsFirst ix => [CText t_lpar; CName ix; CText t_eq0]
+  | JEIsLast ix lim => [CText t_lpar; CName ix; CText t_eqeq; CName lim; CText t_minus1]
   end.
 
 (* ---- semantics ---- *)
@@ -214,16 +218,37 @@ Fixpoint js_eval (env : jenv) (e : jexpr) : outcome jval :=
   | JECond c a d => v <- js_eval env c ;; if js_truthy v then js_eval env a else js_eval env d
   | JEElvis a c => v <- js_eval env a ;; if js_nullish v then js_eval env c else js_eval env a
   | JEEscapeHtml a => v <- js_eval env a ;; match js_tostring v with Some s => Ok (JStr (js_escape_html s)) | None => OutOfModel end
+  | JEIsFirst ix =>
+      match assoc_s ix (je_vars env) with
+      | Some (JNum i) => Ok (JBool (i =? 0)%Z)
+      | Some _ => OutOfModel
+      | None => Err je_ref
+      end
+  | JEIsLast ix lim =>
+      match assoc_s ix (je_vars env), assoc_s lim (je_vars env) with
+      | Some (JNum i), Some (JNum c) => if small (c - 1) then Ok (JBool (i =? c - 1)%Z) else OutOfModel
+      | None, _ | _, None => Err je_ref
+      | _, _ => OutOfModel
+      end
   end.
 
 (* ---- the Soy side of the common subset ---- *)
 Inductive cacc := CAKey (ns : bool) (k : bstr) | CAIdx (ns : bool) (i : Z).
+(* the loop functions index($x), isFirst($x), isLast($x) *)
+Inductive cloopfn := LIndex | LIsFirst | LIsLast.
+Definition cloop_name (k : cloopfn) : bstr :=
+  match k with LIndex => jn_index | LIsFirst => jn_isFirst | LIsLast => jn_isLast end.
 Inductive cexpr :=
 | CNull | CBool (x : bool) | CInt (z : Z) | CStr (s : bstr)
 | CVar (key : bstr) (accs : list cacc)
 | CNeg (a : cexpr) | CNot (a : cexpr)
 | CBin (op : binop) (a c : cexpr)
-| CTern (c a d : cexpr).
+| CTern (c a d : cexpr)
+| CLoop (k : cloopfn) (x : bstr).
+(* a Soy identifier has no dot: the renderer's hidden loop variables $x.index / $x.lastIndex and the generator's
+   frame keys .var / .index / .limit cannot be named by a template *)
+Definition is_ident (s : bstr) : bool := negb (existsb (N.eqb 46) s).
+Definition c_lastindex := Eval vm_compute in b ".lastIndex".
 
 Definition cacc_node (a : cacc) : node :=
   match a with CAKey ns k => NAccKey 0 ns k | CAIdx ns i => NAccIndex 0 ns i end.
@@ -238,6 +263,7 @@ Fixpoint cnode (e : cexpr) : node :=
   | CNot a => NNot 0 (cnode a)
   | CBin op a c => NBin op 0 (cnode a) (cnode c)
   | CTern c a d => NTern 0 (cnode c) (cnode a) (cnode d)
+  | CLoop k x => NFunc 0 (cloop_name k) [NDataRef 0 x []]
   end.
 Fixpoint cdepth (e : cexpr) : nat :=
   match e with
@@ -282,6 +308,19 @@ Fixpoint cgen (sc : list (list (bstr * bstr))) (e : cexpr) : jexpr :=
                   | None => JENull                       (* unreachable: elvis is the case above *)
                   end
   | CTern c a d => JECond (cgen sc c) (cgen sc a) (cgen sc d)
+  | CLoop k x =>
+      let '(ix, lim) := jsc_loop sc x in
+      match k with LIndex => JEVar ix | LIsFirst => JEIsFirst ix | LIsLast => JEIsLast ix lim end
+  end.
+(* every loop function talks about an enclosing loop (otherwise the generator reports an error): a static condition,
+   [lv] = the variables of the enclosing loops *)
+Fixpoint cwf (lv : list bstr) (e : cexpr) : bool :=
+  match e with
+  | CNeg a | CNot a => cwf lv a
+  | CBin _ a c => cwf lv a && cwf lv c
+  | CTern c a d => cwf lv c && cwf lv a && cwf lv d
+  | CLoop _ x => existsb (bstr_eqb x) lv
+  | _ => true
   end.
 
 (* the Soy meaning on the subset: [None] = an error or outside the subset *)
@@ -312,10 +351,12 @@ Section Ceval.
     | CInt z => cint z
     | CStr s => Some (VStr s)
     | CVar key accs =>
-        match (if bstr_eqb key n_ij then ij else Some (match env key with Some v => v | None => VUndef end)) with
-        | Some r => cacc_eval accs r
-        | None => None
-        end
+        if is_ident key then
+          match (if bstr_eqb key n_ij then ij else Some (match env key with Some v => v | None => VUndef end)) with
+          | Some r => cacc_eval accs r
+          | None => None
+          end
+        else None
     | CNeg a => match ceval a with Some (VInt z) => cint (- z) | _ => None end
     | CNot a => match ceval a with Some v => Some (VBool (negb (truthy v))) | None => None end
     | CBin op a c =>
@@ -363,6 +404,17 @@ Section Ceval.
             end
         end
     | CTern c a d => match ceval c with Some v => if truthy v then ceval a else ceval d | None => None end
+    | CLoop k x =>
+        (* the renderer keeps the position in the hidden variables $x.index and $x.lastIndex *)
+        match env (x ++ jk_index) with
+        | Some (VInt i) =>
+            match k with
+            | LIndex => Some (VInt i)
+            | LIsFirst => Some (VBool (i =? 0)%Z)
+            | LIsLast => match env (x ++ c_lastindex) with Some (VInt l) => Some (VBool (i =? l)%Z) | _ => None end
+            end
+        | _ => None
+        end
     end.
 End Ceval.
 
@@ -415,6 +467,10 @@ Inductive cstmt :=
 | SLetC (name : bstr) (body : cblk)                    (* {let $name}...{/let} *)
 | SIf (c : cexpr) (th : cblk) (rest : celse)
 | SSwitch (v : cexpr) (cs : ccases)
+| SFor (x : bstr) (e : cexpr) (body : cblk) (hasie : bool) (ie : cblk)   (* {foreach $x in e}body[{ifempty}ie]{/foreach}; ie is BNil without {ifempty} *)
+| SForRange (x : bstr) (a1 : cexpr) (rest : list cexpr) (body : cblk) (hasie : bool) (ie : cblk)
+    (* {for $x in range(a1, rest..)}body[{ifempty}ie]{/for}: one to three arguments *)
+| SCss (e : option cexpr) (sfx : bstr)                   (* {css sfx} / {css e, sfx} *)
 with cblk := BNil | BCons (s : cstmt) (r : cblk)
 with celse := ENone | EElse (b : cblk) | EElif (c : cexpr) (th : cblk) (rest : celse)
 with ccases := KNone | KDefault (b : cblk) | KCase (v : cexpr) (vs : list cexpr) (b : cblk) (rest : ccases).
@@ -427,6 +483,11 @@ Fixpoint snode (s : cstmt) : node :=
   | SLetC name body => NLetContent 0 name (NList 0 (bnodes body))
   | SIf c th rest => NIf 0 (NIfCond 0 (Some (cnode c)) (NList 0 (bnodes th)) :: enodes rest)
   | SSwitch v cs => NSwitch 0 (cnode v) (knodes cs)
+  | SFor x e body hasie ie =>
+      NFor 0 x (cnode e) (NList 0 (bnodes body)) (if hasie then Some (NList 0 (bnodes ie)) else None)
+  | SForRange x a1 rest body hasie ie =>
+      NFor 0 x (NFunc 0 jn_range (cnode a1 :: map cnode rest)) (NList 0 (bnodes body)) (if hasie then Some (NList 0 (bnodes ie)) else None)
+  | SCss e sfx => NCss 0 (match e with Some x => Some (cnode x) | None => None end) sfx
   end
 with bnodes (b : cblk) : list node :=
   match b with BNil => [] | BCons s r => snode s :: bnodes r end
@@ -453,6 +514,9 @@ Fixpoint sdepth (s : cstmt) : nat :=
   | SLetC _ body => S (S (bdepth body))
   | SIf c th rest => S (S (Nat.max (cdepth c) (Nat.max (bdepth th) (edepth rest))))
   | SSwitch v cs => S (S (Nat.max (cdepth v) (kdepth cs)))
+  | SFor _ e body _ ie => S (S (Nat.max (cdepth e) (Nat.max (bdepth body) (bdepth ie))))
+  | SForRange _ a1 rest body _ ie => S (S (S (Nat.max (Nat.max (cdepth a1) (cdepths rest)) (Nat.max (bdepth body) (bdepth ie)))))
+  | SCss e _ => S (S (match e with Some x => cdepth x | None => 0%nat end))
   end
 with bdepth (b : cblk) : nat :=
   match b with BNil => 0%nat | BCons s r => Nat.max (S (sdepth s)) (bdepth r) end
@@ -476,6 +540,12 @@ Inductive jstmt :=
 | JSVarBlock (g : bstr) (body : jblk)                          (* var g = ''; followed by statements that append to g (no braces) *)
 | JSIf (c : jexpr) (th : jblk) (rest : jelse)                  (* if (c) {..} [else if (c) {..}]* [else {..}] *)
 | JSSwitch (v : jexpr) (cs : jcases)                           (* switch (v) { [case x:]+ .. break; ... [default: .. break;] } *)
+| JSForeach (vd vlist vlen vidx : bstr) (e : jexpr) (body : jblk) (hasie : bool) (ie : jblk)
+    (* var vlist = e; var vlen = vlist.length; [if (vlen > 0) {] for (var vidx = 0; vidx < vlen; vidx++) { var vd = vlist[vidx]; body } [} else { ie }] *)
+| JSForRange (vd vinit vstep vlen vidx : bstr) (ei es el : jexpr) (body : jblk) (hasie : bool) (ie : jblk)
+    (* var vinit = ei; var vstep = es; var vlen = Math.max(0, Math.ceil((el - vinit) / vstep));
+       [if (vlen > 0) {] for (var vidx = 0; vidx < vlen; vidx++) { var vd = vinit + vidx * vstep; body } [} else { ie }] *)
+| JSCss (buf : bstr) (e : option jexpr) (sfx : bstr)            (* [buf += e + '-';] buf += 'sfx'; *)
 with jblk := JBNil | JBCons (s : jstmt) (r : jblk)
 with jelse := JLNone | JLElse (b : jblk) | JLElif (c : jexpr) (th : jblk) (rest : jelse)
 with jcases := JKNone | JKDefault (b : jblk) | JKCase (v : jexpr) (vs : list jexpr) (b : jblk) (rest : jcases).
@@ -485,6 +555,18 @@ with jcases := JKNone | JKDefault (b : jblk) | JKCase (v : jexpr) (vs : list jex
 Definition jsc_bind_pure (sc : list (list (bstr * bstr))) (v g : bstr) : list (list (bstr * bstr)) :=
   match sc with f :: r => aset f v g :: r | [] => [] end.
 Definition jsc_name (v : bstr) (n : N) : bstr := v ++ t_us ++ dec_of_N n.
+(* scope.go pushForEach / pushForRange: the frame of a loop over $x whose names carry the counter n *)
+Definition loop_frame (x : bstr) (n : N) : list (bstr * bstr) :=
+  aset (aset (aset (aset [] x (jsc_name x n)) jk_var x) jk_limit (jsc_name (x ++ t_limit) n)) jk_index (jsc_name (x ++ t_index) n).
+
+(* visitForRange: init, limit, increment from one to three arguments (None: an arity the generator rejects) *)
+Definition range_args {A} (zero one : A) (args : list A) : option (A * A * A) :=
+  match args with
+  | [l] => Some (zero, l, one)
+  | [i; l] => Some (i, l, one)
+  | [i; l; s] => Some (i, l, s)
+  | _ => None
+  end.
 
 (* the generator on statements: for an autoescape mode and a buffer variable, from a scope and a variable counter
    to the statement, the scope after it (a let binds) and the counter (never reset: var is function-scoped).
@@ -505,6 +587,23 @@ Fixpoint sgen (mode : N) (buf : bstr) (sc : list (list (bstr * bstr))) (n : N) (
       let '(jr, n2) := egen mode buf sc n1 rest in
       (JSIf (cgen sc c) jt jr, (sc, n2))
   | SSwitch v cs => let '(jc, n1) := kgen mode buf sc n cs in (JSSwitch (cgen sc v) jc, (sc, n1))
+  | SFor x e body hasie ie =>
+      (* the list is translated outside the loop's scope; the body is a block under the loop's frame; the
+         ifempty block is translated after that frame is dropped *)
+      let '(jb, n1) := bgen mode buf ([] :: loop_frame x (n + 1) :: sc) (n + 1) body in
+      let '(ji, n2) := if hasie then bgen mode buf ([] :: sc) n1 ie else (JBNil, n1) in
+      (JSForeach (jsc_name x (n + 1)) (jsc_name (x ++ t_list) (n + 1)) (jsc_name (x ++ t_limit) (n + 1)) (jsc_name (x ++ t_index) (n + 1))
+                 (cgen sc e) jb hasie ji, (sc, n2))
+  | SForRange x a1 rest body hasie ie =>
+      let '(jb, n1) := bgen mode buf ([] :: loop_frame x (n + 1) :: sc) (n + 1) body in
+      let '(ji, n2) := if hasie then bgen mode buf ([] :: sc) n1 ie else (JBNil, n1) in
+      let '(ei, el, es) := match range_args (JENum 0) (JENum 1) (map (cgen sc) (a1 :: rest)) with
+                           | Some t => t
+                           | None => (JENull, JENull, JENull)       (* the generator reports an error: excluded by swf *)
+                           end in
+      (JSForRange (jsc_name x (n + 1)) (jsc_name (x ++ t_init) (n + 1)) (jsc_name (x ++ t_step) (n + 1)) (jsc_name (x ++ t_limit) (n + 1))
+                  (jsc_name (x ++ t_index) (n + 1)) ei es el jb hasie ji, (sc, n2))
+  | SCss e sfx => (JSCss buf (match e with Some x => Some (cgen sc x) | None => None end) sfx, (sc, n))
   end
 with bgen (mode : N) (buf : bstr) (sc : list (list (bstr * bstr))) (n : N) (b : cblk) : jblk * N :=
   match b with
@@ -563,6 +662,46 @@ Fixpoint jk_hit (env : jenv) (sv : jval) (vs : list jexpr) : outcome bool :=
               end
   end.
 
+Definition jvset (env : jenv) (g : bstr) (v : jval) : jenv := {| je_vars := aset (je_vars env) g v; je_data := je_data env |}.
+Definition jvget (env : jenv) (g : bstr) : option jval := assoc_s g (je_vars env).
+
+(* for (var vidx = 0; vidx < vlen; vidx++) { var vd = <item>; body }  after vidx = 0: the condition, the item and the
+   increment read the variables each time round, as the engine does; [k] bounds the number of rounds (the caller
+   passes the count at entry: a body that changes vidx or vlen so that more rounds are needed is OutOfModel) *)
+Fixpoint js_for (run : jenv -> outcome jenv) (item : jenv -> Z -> outcome jval) (vd vlen vidx : bstr) (k : nat) (env : jenv)
+  : outcome jenv :=
+  match jvget env vidx, jvget env vlen with
+  | Some (JNum i), Some (JNum c) =>
+      if (i <? c)%Z then
+        match k with
+        | O => OutOfModel
+        | S k' =>
+            x <- item env i ;;
+            env2 <- run (jvset env vd x) ;;
+            match jvget env2 vidx with
+            | Some (JNum i2) => nx <- js_num (i2 + 1) ;; js_for run item vd vlen vidx k' (jvset env2 vidx nx)
+            | _ => OutOfModel
+            end
+        end
+      else Ok env
+  | _, _ => OutOfModel
+  end.
+(* vlist[i] *)
+Definition js_item_elem (vlist : bstr) (env : jenv) (i : Z) : outcome jval :=
+  match jvget env vlist with Some l => js_index l i | None => Err je_ref end.
+
+(* vinit + i * vstep *)
+Definition js_item_lin (vinit vstep : bstr) (env : jenv) (i : Z) : outcome jval :=
+  match jvget env vinit, jvget env vstep with
+  | Some (JNum a), Some (JNum s) => m <- js_num (i * s) ;; match m with JNum mz => js_num (a + mz) | _ => OutOfModel end
+  | None, _ | _, None => Err je_ref
+  | _, _ => OutOfModel
+  end.
+(* Math.max(0, Math.ceil((l - a) / s)) on integers: the quotient is exact in the reals; ceil(d / s) = -floor(-d / s) *)
+Definition js_range_count (l a s : Z) : outcome jval :=
+  if (s =? 0)%Z then OutOfModel
+  else if small (l - a) then js_num (Z.max 0 (- ((- (l - a)) / s))) else OutOfModel.
+
 (* var is function-scoped: a block does not restore anything *)
 Fixpoint js_exec (env : jenv) (s : jstmt) : outcome jenv :=
   match s with
@@ -572,6 +711,42 @@ Fixpoint js_exec (env : jenv) (s : jstmt) : outcome jenv :=
   | JSVarBlock g body => jb_exec {| je_vars := aset (je_vars env) g (JStr []); je_data := je_data env |} body
   | JSIf c th rest => v <- js_eval env c ;; if js_truthy v then jb_exec env th else jl_exec env rest
   | JSSwitch v cs => sv <- js_eval env v ;; jk_exec env sv cs
+  | JSForeach vd vlist vlen vidx e body hasie ie =>
+      v <- js_eval env e ;;
+      match v with
+      | JArr l =>
+          let c := Z.of_nat (length l) in
+          let env2 := jvset (jvset env vlist v) vlen (JNum c) in
+          if hasie && (c <=? 0)%Z then jb_exec env2 ie
+          else js_for (fun en => jb_exec en body) (js_item_elem vlist) vd vlen vidx (length l) (jvset env2 vidx (JNum 0))
+      | JUndef | JNull => Err je_type        (* .length of undefined / null *)
+      | _ => OutOfModel                      (* the length of a string counts UTF-16 units; other values have none *)
+      end
+  | JSForRange vd vinit vstep vlen vidx ei es el body hasie ie =>
+      vi <- js_eval env ei ;;
+      let env1 := jvset env vinit vi in
+      vs <- js_eval env1 es ;;
+      let env2 := jvset env1 vstep vs in
+      vl <- js_eval env2 el ;;
+      match vl, jvget env2 vinit, jvget env2 vstep with
+      | JNum l, Some (JNum a), Some (JNum s) =>
+          cv <- js_range_count l a s ;;
+          match cv with
+          | JNum c =>
+              let env3 := jvset env2 vlen cv in
+              if hasie && (c <=? 0)%Z then jb_exec env3 ie
+              else js_for (fun en => jb_exec en body) (js_item_lin vinit vstep) vd vlen vidx (Z.to_nat c) (jvset env3 vidx (JNum 0))
+          | _ => OutOfModel
+          end
+      | _, _, _ => OutOfModel
+      end
+  | JSCss buf e sfx =>
+      env1 <- match e with
+              | Some x => v <- js_eval env x ;;
+                          match js_tostring v with Some s => js_append_text env buf (s ++ [45]) | None => OutOfModel end
+              | None => Ok env
+              end ;;
+      js_append_text env1 buf sfx
   end
 with jb_exec (env : jenv) (b : jblk) : outcome jenv :=
   match b with JBNil => Ok env | JBCons s r => env' <- js_exec env s ;; jb_exec env' r end
@@ -598,6 +773,12 @@ Definition scalar_string (v : value) : option bstr :=
   | VNull => Some s_null
   | _ => None
   end.
+(* the list range() returns: a, a + st, ... below l (st > 0); the fuel l - a suffices *)
+Fixpoint range_items (fuel : nat) (i limit step : Z) : list value :=
+  match fuel with
+  | O => []
+  | S f => if (i <? limit)%Z then VInt i :: range_items f (i + step)%Z limit step else []
+  end.
 Definition cleanb (s : bstr) : bool := forallb (fun c => negb (c =? 0) && negb (c =? 34)) s.
 Definition prim_value (v : value) : bool :=
   match v with VUndef | VNull | VBool _ | VInt _ | VStr _ => true | _ => false end.
@@ -619,6 +800,26 @@ Section Sout.
                 end
     end.
 
+  (* the rounds of a loop: each binds $x and the hidden $x.index in the loop's frame, over what the last round left *)
+  Fixpoint for_out (run : (bstr -> option value) -> option bstr) (x : bstr) (env : bstr -> option value) (i : Z) (items : list value)
+    : option bstr :=
+    match items with
+    | [] => Some []
+    | v :: r =>
+        let env1 := env_set (env_set env x v) (x ++ jk_index) (VInt i) in
+        match run env1 with
+        | Some t => match for_out run x env1 (i + 1)%Z r with Some t' => Some (t ++ t') | None => None end
+        | None => None
+        end
+    end.
+
+  (* the arguments of range(): integers; a step must be positive *)
+  Fixpoint cints (env : bstr -> option value) (es : list cexpr) : option (list Z) :=
+    match es with
+    | [] => Some []
+    | e :: r => match ceval ij env e, cints env r with Some (VInt z), Some zs => Some (z :: zs) | _, _ => None end
+    end.
+
   Fixpoint sout (env : bstr -> option value) (s : cstmt) : option (bstr * (bstr -> option value)) :=
     match s with
     | SRaw t => Some (t, env)
@@ -632,10 +833,12 @@ Section Sout.
         end
     | SLet name e =>
         if bstr_eqb name n_ij then None
-        else match ceval ij env e with Some v => Some ([], env_set env name v) | None => None end
+        else if is_ident name then match ceval ij env e with Some v => Some ([], env_set env name v) | None => None end
+        else None
     | SLetC name body =>
         if bstr_eqb name n_ij then None
-        else match bout env body with Some t => Some ([], env_set env name (VStr t)) | None => None end
+        else if is_ident name then match bout env body with Some t => Some ([], env_set env name (VStr t)) | None => None end
+        else None
     | SIf c th rest =>
         match ceval ij env c with
         | Some v => match (if truthy v then bout env th else eout env rest) with Some t => Some (t, env) | None => None end
@@ -647,6 +850,56 @@ Section Sout.
                      then match kout env sv cs with Some t => Some (t, env) | None => None end
                      else None
         | None => None
+        end
+    | SFor x e body hasie ie =>
+        if is_ident x && negb (bstr_eqb x n_ij) then
+          match ceval ij env e with
+          | Some (VList _ l) =>
+              if small (Z.of_nat (length l)) then
+                match l with
+                | [] => if hasie then match bout env ie with Some t => Some (t, env) | None => None end else Some ([], env)
+                | _ :: _ =>
+                    match for_out (fun en => bout en body) x
+                                  (env_set env (x ++ c_lastindex) (VInt (Z.of_nat (length l) - 1))) 0%Z l with
+                    | Some t => Some (t, env)
+                    | None => None
+                    end
+                end
+              else None
+          | _ => None
+          end
+        else None
+    | SForRange x a1 rest body hasie ie =>
+        if is_ident x && negb (bstr_eqb x n_ij) then
+          match cints env (a1 :: rest) with
+          | Some zs =>
+              match range_args 0%Z 1%Z zs with
+              | Some (a, l, st) =>
+                  if (0 <? st)%Z && small (l - a) then
+                    let items := range_items (Z.to_nat (Z.max 0 (l - a))) a l st in
+                    match items with
+                    | [] => if hasie then match bout env ie with Some t => Some (t, env) | None => None end else Some ([], env)
+                    | _ :: _ =>
+                        match for_out (fun en => bout en body) x
+                                      (env_set env (x ++ c_lastindex) (VInt (Z.of_nat (length items) - 1))) 0%Z items with
+                        | Some t => Some (t, env)
+                        | None => None
+                        end
+                    end
+                  else None
+              | None => None
+              end
+          | None => None
+          end
+        else None
+    | SCss e sfx =>
+        match e with
+        | None => Some (sfx, env)
+        | Some x =>
+            match ceval ij env x with
+            | Some v => match scalar_string v with Some str => Some ((str ++ [45]) ++ sfx, env) | None => None end
+            | None => None
+            end
         end
     end
   with bout (env : bstr -> option value) (b : cblk) : option bstr :=
@@ -699,6 +952,33 @@ Fixpoint sprint (ind : nat) (s : jstmt) : list chunk :=
   | JSSwitch v cs =>
       sp_ind ind ++ [CText t_switch_open] ++ jprint v ++ [CText t_for_close; CText t_nl] ++ kprint (S ind) cs
       ++ sp_ind ind ++ [CText t_rbrace; CText t_nl]
+  | JSForeach vd vlist vlen vidx e body hasie ie =>
+      let ind1 := if hasie then S ind else ind in
+      (sp_ind ind ++ ([CText t_var; CName vlist; CText t_eq] ++ jprint e ++ [CText t_semi]) ++ [CText t_nl])
+      ++ (sp_ind ind ++ [CText t_var; CName vlen; CText t_eq; CName vlist; CText t_length] ++ [CText t_nl])
+      ++ (if hasie then sp_ind ind ++ [CText t_if_open; CName vlen; CText t_gt0] ++ [CText t_nl] else [])
+      ++ (sp_ind ind1 ++ [CText t_for_open; CName vidx; CText t_eq0_semi; CName vidx; CText t_lt; CName vlen; CText t_semi_sp; CName vidx; CText t_plusplus] ++ [CText t_nl])
+      ++ (sp_ind (S ind1) ++ ([CText t_var; CName vd; CText t_eq] ++ [CName vlist; CText t_lbrack; CName vidx; CText t_rbrack] ++ [CText t_semi]) ++ [CText t_nl])
+      ++ bprint (S ind1) body
+      ++ (sp_ind ind1 ++ [CText t_rbrace] ++ [CText t_nl])
+      ++ (if hasie then (sp_ind ind ++ [CText t_else_block] ++ [CText t_nl]) ++ bprint (S ind) ie ++ (sp_ind ind ++ [CText t_rbrace] ++ [CText t_nl]) else [])
+  | JSForRange vd vinit vstep vlen vidx ei es el body hasie ie =>
+      let ind1 := if hasie then S ind else ind in
+      (sp_ind ind ++ ([CText t_var; CName vinit; CText t_eq] ++ jprint ei ++ [CText t_semi]) ++ [CText t_nl])
+      ++ (sp_ind ind ++ ([CText t_var; CName vstep; CText t_eq] ++ jprint es ++ [CText t_semi]) ++ [CText t_nl])
+      ++ (sp_ind ind ++ ([CText t_var; CName vlen; CText t_count1] ++ jprint el ++ [CText t_minus; CName vinit; CText t_count2; CName vstep; CText t_count3]) ++ [CText t_nl])
+      ++ (if hasie then sp_ind ind ++ [CText t_if_open; CName vlen; CText t_gt0] ++ [CText t_nl] else [])
+      ++ (sp_ind ind1 ++ [CText t_for_open; CName vidx; CText t_eq0_semi; CName vidx; CText t_lt; CName vlen; CText t_semi_sp; CName vidx; CText t_plusplus] ++ [CText t_nl])
+      ++ (sp_ind (S ind1) ++ ([CText t_var; CName vd; CText t_eq] ++ [CName vinit; CText t_plus; CName vidx; CText t_times; CName vstep] ++ [CText t_semi]) ++ [CText t_nl])
+      ++ bprint (S ind1) body
+      ++ (sp_ind ind1 ++ [CText t_rbrace] ++ [CText t_nl])
+      ++ (if hasie then (sp_ind ind ++ [CText t_else_block] ++ [CText t_nl]) ++ bprint (S ind) ie ++ (sp_ind ind ++ [CText t_rbrace] ++ [CText t_nl]) else [])
+  | JSCss buf e sfx =>
+      (match e with
+       | Some x => [CText (indent_text ind); CName buf; CText t_pluseq] ++ jprint x ++ [CText t_css_tail; CText t_nl]
+       | None => []
+       end)
+      ++ [CText (indent_text ind); CName buf; CText t_pluseq; CStrLit 39 sfx; CText t_semi_nl]
   end
 with bprint (ind : nat) (b : jblk) : list chunk :=
   match b with JBNil => [] | JBCons s r => sprint ind s ++ bprint ind r end
@@ -717,4 +997,33 @@ with kprint (ind : nat) (k : jcases) : list chunk :=
       sp_ind ind ++ [CText t_default; CText t_nl] ++ bprint (S ind) b ++ sp_ind (S ind) ++ [CText t_break; CText t_nl]
   | JKCase v vs b rest =>
       jk_values ind (v :: vs) ++ bprint (S ind) b ++ sp_ind (S ind) ++ [CText t_break; CText t_nl] ++ kprint ind rest
+  end.
+
+(* ---- static condition for the generator: loop functions talk about enclosing loops, binders are identifiers ---- *)
+Fixpoint swf (lv : list bstr) (s : cstmt) : bool :=
+  match s with
+  | SRaw _ => true
+  | SPrint e _ => cwf lv e
+  | SLet name e => is_ident name && cwf lv e
+  | SLetC name body => is_ident name && bwf lv body
+  | SIf c th rest => cwf lv c && bwf lv th && ewf lv rest
+  | SSwitch v cs => cwf lv v && kwf lv cs
+  | SFor x e body _ ie => is_ident x && cwf lv e && bwf (x :: lv) body && bwf lv ie
+  | SForRange x a1 rest body _ ie =>
+      is_ident x && (Nat.leb (length rest) 2) && cwf lv a1 && forallb (cwf lv) rest && bwf (x :: lv) body && bwf lv ie
+  | SCss e _ => match e with Some x => cwf lv x | None => true end
+  end
+with bwf (lv : list bstr) (b : cblk) : bool :=
+  match b with BNil => true | BCons s r => swf lv s && bwf lv r end
+with ewf (lv : list bstr) (e : celse) : bool :=
+  match e with
+  | ENone => true
+  | EElse b => bwf lv b
+  | EElif c th rest => cwf lv c && bwf lv th && ewf lv rest
+  end
+with kwf (lv : list bstr) (k : ccases) : bool :=
+  match k with
+  | KNone => true
+  | KDefault b => bwf lv b
+  | KCase v vs b rest => cwf lv v && forallb (cwf lv) vs && bwf lv b && kwf lv rest
   end.
